@@ -88,14 +88,19 @@ def extract_api(mod, table):
                 continue
             items.append((api, {'tokname': tokname, 'tok': tc[tokname], 'flags': flags, 'dz': dz, 'lookup': lk, 'stubcmp': False}))
     n = reached = 0
+    post = {}
     for r in stepm.run_api_keys(mod, items):
         K = r['K']
         n += 1
+        for (field, loc) in r.get('post_writes', ()):
+            if field.startswith('level.') and field.split('.')[1] in ('flags', 'array_depth', 'current_name') or \
+                    field in ('parser.depth', 'parser.buffer_used', 'parser.current_state'):
+                post.setdefault(r['api'], set()).add((field, loc))
         if r['outcomes']:
             reached += 1
             table[(K['tokname'], K['flags'], K['dz'], K['lookup'])]['api:' + r['api'].replace('binson_parser_', '')] = r['outcomes']
     need(reached >= 100, 'C08: the token loop was reached through the public functions in only %d states' % reached)
-    return {'api_first_iteration_evaluations': n, 'reaching_the_loop': reached}
+    return {'api_first_iteration_evaluations': n, 'reaching_the_loop': reached, 'wrapper_post_writes': {a: sorted(v) for a, v in post.items()}}
 
 
 ORIG = ('k:O', 'k:AO')
@@ -154,6 +159,13 @@ def run(rep, tier):
             mod = irload.load(lib)
             table, modes, stats = extract(mod)
             stats.update(extract_api(mod, table))
+            pw = stats.pop('wrapper_post_writes')
+            for (api, lk) in API_FIRST:
+                w = pw.get(api)
+                rep.ob(not w, '%s:WRAPPER-STATE' % api,
+                       'C08 WRAPPER-STATE %s changes the validation state itself after its call of the token loop (%s): later tokens are checked '
+                       'against a state verify never has' % (api, ', '.join('%s at %s' % x for x in (w or []))), '',
+                       sample={'function': api, 'writes_to_validation_state_after_the_loop_call': 0})
             rep.coverage.setdefault('extraction', {})[tag] = dict(stats, scan_modes=modes, loop_head_states=len(table))
             need(len(table) >= 100, 'C08: only %d loop-head states evaluated' % len(table))
             counts = {'E': 0, 'C': 0, 'N': 0, '?': 0}
